@@ -100,24 +100,26 @@ CLAIMED = {
              'ECI designators, macro handling, padding check) and the string decoder (ECI span slicing, ISO 8859 tables, UTF-8) return a value '
              'or an error: bounds of every table index, u8 additions, termination of the mode loop (measure 2*remaining+mode) and the ECI '
              'span invariant are proved; C05_try_from_bits -- the same for every bool vector and width; C05_codewords_total and C05_decode_glue -- for every pixel array the glue of DataMatrix::decode (parsing, placement read-out of any content, data/error split, data decoder) cannot panic: a panic of decode() can only originate inside decode_error; '
-             'C05_rs_decoder, C05_rs_locator and C05_decode_symbol -- for EVERY received word of a symbol\'s length (resp. every pixel array) the '
-             'syndrome / Levinson-Durbin / Chien / Bjoerck-Pereyra code and the application of the corrections stay inside their slices, '
-             'never divide by zero (pivots non-zero by the branch conditions; reported roots non-zero and pairwise different by a sweep over '
-             'the antilog table), never underflow, never trip a length or range assertion, and terminate: the only panic site not excluded is '
-             'PAssertLD, the cfg!(debug_assertions) self-check of identities (3)/(4) inside the Levinson-Durbin loop, which does not exist in '
-             'release builds. PARTIAL: that this self-check never fires in a debug build (= correctness of the recursion) is NOT a theorem; '
-             'it rests on the correspondence run in debug AND release builds with panics caught: random words for all 48 sizes, words '
-             'constructed to have t or more leading zero syndromes, garbage symbols with a valid finder pattern. Six panics found on the '
-             'pinned tree were repaired (fix: commits).',
+             'C05_rs_decoder_total, C05_rs_locator_total and C05_decode_symbol_total -- for EVERY word of bytes of a symbol\'s length (resp. every pixel array and width) '
+             'the error-correction entry point and DataMatrix::decode return a value or an error: NO panic in any build. Two layers: Proofs/RSTotal.v '
+             '(C05_rs_decoder, C05_rs_locator, C05_decode_symbol) -- the syndrome / Levinson-Durbin / Chien / Bjoerck-Pereyra code and the application '
+             'of the corrections stay inside their slices, never divide by zero (pivots non-zero by the branch conditions; reported roots non-zero '
+             'and pairwise different by a sweep over the antilog table), never underflow, never trip a length or range assertion, and terminate, '
+             'leaving only PAssertLD, the cfg!(debug_assertions) self-checks inside the Levinson-Durbin loop; Proofs/LDMath.v, LDBridge.v, LDInv.v, '
+             'LDTotal.v -- the identities (3) H_v y = e_v and (4) H_v w = h_v over GF(256) are invariants of the loop (initial anti-triangular solve, '
+             'regular step, singular step with its jump, the iteration w^k, the Toeplitz solve for gamma, the update of w), so these self-checks '
+             'never fire and the locator search always returns a value or TooManyErrors. The debug AND release correspondence with panics caught '
+             '(random words for all 48 sizes, words with t or more leading zero syndromes, wrong codewords at the edges of every interleaved '
+             'block, garbage symbols with a valid finder pattern) ties the model to the code. Six panics found on the pinned tree were repaired (fix: commits).',
         design_ref='DESIGN.md 6/C05',
         note='Trusted: Coq kernel, translator (mode tables, charset tables), extraction, harness with catch_unwind; allocation failure and '
              'stack exhaustion outside the model. No axioms.',
-        technique='Coq proof: explicit panic outcomes + bounds/termination invariants (full for data/string decoder, bitmap parser and, for release builds, the RS decoder and the whole-symbol entry point; debug builds modulo the Levinson-Durbin self-check) + debug/release differential correspondence'),
+        technique='Coq proof: explicit panic outcomes + bounds/termination invariants (full for all four entry points, all builds: data/string decoder, bitmap parser, RS decoder incl. the Levinson-Durbin invariants, whole-symbol entry point) + debug/release differential correspondence'),
     'C13': dict(
         text='Theorems (Coq, axiom-free): C13_plan_modes_enabled -- every mode named by a plan of the optimiser is enabled, for every input, list, '
              'mode set, start mode (enabled or not) and every admissible sort (invariant over the planner loop, nothing about costs); '
              'C13_latch_source / C13_fallback_is_ascii -- in the encoder the latch to be written is set in exactly one place and is the latch of a '
-             'mode of the plan, the end-of-data fallback only ever selects ASCII. PARTIAL: that the codewords written by the six mode encoders '
+             'mode of the plan, the end-of-data fallback only ever selects ASCII; C13_ascii_only_no_latch and C13_ascii_base256_only -- the stream-level statement for every mode set within {ASCII, Base256}: the stream is the rendering of a script made of ASCII runs and Base256 fields only. PARTIAL: for the other mode sets, that the codewords written by the six mode encoders '
              'contain no other value a reference decoder reads as a latch is the stream-level statement (C02) and is not yet a theorem; the '
              'check evaluates it on every case: the output for every one of the 63 non-empty mode subsets is parsed by the independent '
              'mode-tracking decoder tools/props/refdec.py and its latches intersected with the disabled set. Model tied by correspondence.',
@@ -140,7 +142,7 @@ CLAIMED = {
              'the symbol from data + error codewords (placement, fixed corner pattern, finder/clock/alignment) and decoding the pixels '
              '(strict parsing, placement read-out, error correction) hands exactly the data codewords to the data decoder -- composition of '
              'C06, C07 (table, bijection, values), C08 (parse of rendering) and the weight-0 case of the error decoder; so the two observation '
-             'routes of the property agree for every input and configuration (C01_routes_agree). C01_ascii_plan_roundtrip / C01_ascii_only_roundtrip: the data layer for every byte string and list whenever the plan is "stay in ASCII" (encoder theorem composed with C04), which is proved to be the only possible answer of the optimiser when only ASCII is enabled; C01_base256_only_roundtrip: likewise for the Base256-only configuration (plan "Base256 to the end", length field in all three forms) -- for these two configurations the whole property is a theorem. PARTIAL: the data layer under the other plans, '
+             'routes of the property agree for every input and configuration (C01_routes_agree). C01_ascii_plan_roundtrip / C01_ascii_only_roundtrip: the data layer for every byte string and list whenever the plan is "stay in ASCII" (encoder theorem composed with C04), which is proved to be the only possible answer of the optimiser when only ASCII is enabled; C01_base256_only_roundtrip: likewise for the Base256-only configuration (plan "Base256 to the end", length field in all three forms) -- and C01_ab_plan_roundtrip / C01_ascii_base256_roundtrip: for EVERY plan that uses only ASCII and Base256, whatever its switch positions (so, with the crate\'s optimiser, whose plans name enabled modes only, for every mode set within {ASCII, Base256}) -- for these three configurations the whole property is a theorem. PARTIAL: the data layer under plans that use C40/Text/X12/EDIFACT, '
              'decode_data(data codewords of encode(x)) = x for every x and configuration, is the composition of C02 and C04 and is not yet a '
              'theorem. The check evaluates it on every case: structured inputs x symbol lists x 63 mode subsets x macro x FNC1 are encoded and '
              'decoded both ways by the implementation (and by the correspondence-tied model) and compared with the input. Eight round-trip '
@@ -222,8 +224,8 @@ CLAIMED = {
              'the supplied list and the stream has exactly its number of data codewords; C02_error_codewords -- followed by exactly k*B error '
              'codewords forming RS codewords (C06); C02_padding / C02_padding_form / C02_randomised_pad -- what the mode encoders wrote is never '
              'truncated and is followed, if capacity remains, by [254 unless in ASCII], 129 and pads randomised by the 253-state algorithm at their '
-             'positions, to exactly the capacity; C02_header -- 232, 236/237, 241+designator come first in this order; C02_ascii_plan_conformant / C02_ascii_only_conformant -- under the plan "stay in ASCII" (the only possible plan when only ASCII is enabled), and C02_base256_only_conformant for the Base256-only configuration, the whole stream is the rendering of a legal script of Spec/Stream16022.v. PARTIAL: that the part between '
-             'header and padding is a legal mode stream decoding to the input is, for EVERY input, a theorem only for those two configurations. For '
+             'positions, to exactly the capacity; C02_header -- 232, 236/237, 241+designator come first in this order; C02_ascii_plan_conformant / C02_ascii_only_conformant -- under the plan "stay in ASCII" (the only possible plan when only ASCII is enabled), C02_base256_only_conformant for the Base256-only configuration, and C02_ab_plan_conformant / C02_ascii_base256_conformant for EVERY plan over ASCII and Base256 with arbitrary switch positions (every mode set within {ASCII, Base256}), the whole stream is the rendering of a legal script of Spec/Stream16022.v. PARTIAL: that the part between '
+             'header and padding is a legal mode stream decoding to the input is, for EVERY input, a theorem only for those three configurations. For '
              'the other plans it is decided per output by a certificate whose check is proved sound in Coq (C02_certificate_sound: accepted => '
              'the stream is the rendering of a legal script of Spec/Stream16022.v spelling exactly the input bytes, and the model decoder '
              'returns them; nothing is assumed about the recogniser that guesses the script). The extracted check runs on every stream the '
